@@ -93,8 +93,15 @@ def sortBy {α} (key : α → List Char) (l : List α) : List α := l.foldr (ins
 def quoteArray (vs : List (List Char)) : List Char :=
   '(' :: (joinSp (vs.map quote) ++ [')'])
 
-/-- `separator` of `print_one` -/
-def sepOf (name : List Char) : List Char := if name.head? = some '-' then "-- ".toList else []
+/-- `separator` of `print_one` (`name.starts_with([...])`, characters from the generated table) -/
+def sepOf (name : List Char) : List Char :=
+  match name with
+  | c :: _ => if Generated.QuoteTables.separatorPrefixes.contains c then "-- ".toList else []
+  | [] => []
+
+/-- first characters with which the built-ins' argument parser (yash-builtin/src/common/syntax.rs)
+    takes an argument for an option: `-x`, `+x` -/
+def optionPrefixChars : List Char := ['-', '+']
 
 /-- `AttributeOption` for `typeset` (`ALL_OPTIONS` order: `-r` before `-x`) -/
 def typesetOpts (v : Var) : List Char :=
@@ -192,7 +199,8 @@ def optWords (v : Var) (opts : Var → List Char) : List (List Char) :=
 /-- The operand `name[=value]` is not mistaken for an option by the utility's argument parser: it does not
     begin with `-` or `+`, or the separator `--` is printed before it. -/
 def operandSafe (name : List Char) : Bool :=
-  !(sepOf name).isEmpty || !(name.head? = some '-' || name.head? = some '+')
+  !(sepOf name).isEmpty ||
+    !(match name with | c :: _ => optionPrefixChars.contains c | [] => false)
 
 /-- the command line(s) of a variable entry read back by the model lexer are exactly the words that
     recreate the entry (arguments of a declaration utility: `readBackDecl`) -/
